@@ -529,6 +529,14 @@ impl Acct {
                 Err(e) if self.arm16 && e.starts_with("tail:") => {
                     return Err(V::new("C16/tail-not-whole-items", format!("datagram to {to:?}: {e}")));
                 }
+                // the datagram cannot be taken apart at all, yet the instance spent a transmission of a custom item
+                // in this call: the item went out in a form no receiver can hand to its handler
+                Err(e) if self.arm16 && custom_transmission_spent(rec) => {
+                    return Err(V::new(
+                        "C16/item-in-unparsable-datagram",
+                        format!("datagram to {to:?} does not parse ({e}) and a pending custom item lost a transmission in this call (backlog {:?} -> {:?})", brief(&rec.pre.snap.custom_backlog), brief(&rec.post.snap.custom_backlog)),
+                    ));
+                }
                 Err(e) => return Err(V::new("desync", e)),
             };
             self.account(&to, &p, mps, hcfg, acc)?;
@@ -639,4 +647,18 @@ impl Acct {
         }
         Ok(())
     }
+}
+
+
+fn brief(b: &[(usize, Vec<u8>)]) -> Vec<(usize, String)> {
+    b.iter().map(|(r, d)| (*r, crate::util::hex(&d[..d.len().min(8)]))).collect()
+}
+
+/// Did some pending custom item lose a transmission during this call (hook snapshot before/after)?
+fn custom_transmission_spent(rec: &CallRec) -> bool {
+    let post = &rec.post.snap.custom_backlog;
+    rec.pre.snap.custom_backlog.iter().any(|(rem, bytes)| match post.iter().find(|(_, b)| b == bytes) {
+        Some((rem2, _)) => rem2 < rem,
+        None => *rem == 1,
+    })
 }
